@@ -258,9 +258,20 @@ func VerifyDecShare(suite Suite, G, X kyber.Point, encShare *PubVerShare, decSha
 		return fmt.Errorf("didn't verify: %w", ErrDecVerification)
 	}
 
-	// Compute challenge for the decShare
+	// Compute challenge for the decShare. It covers the whole statement: the
+	// bases G and the claimed decrypted share as well as X and the encrypted
+	// share (see dleq.NewDLEQProof).
 	h := suite.Hash()
 	var err error
+	if G == nil {
+		G = suite.Point().Base()
+	}
+	if _, err = G.MarshalTo(h); err != nil {
+		return err
+	}
+	if _, err = decShare.S.V.MarshalTo(h); err != nil {
+		return err
+	}
 	if _, err = X.MarshalTo(h); err != nil {
 		return err
 	}
